@@ -63,7 +63,10 @@ Projected(a) ==
              /\ routes'[c] = {<<r[1], r[2]>> : r \in SetOf(a.routes[c])}
              /\ pub'[c] = AbsPub(a.pub[c])
              /\ a.pub[c].stray = <<>>
-             /\ (a.exists[c] => parent'[c] = a.parent[c])
+             \* (the parent of the slot and whether the CA has it configured,
+             \* as long as the CA exists)
+             /\ (Known(a.parent, c) => parent'[c] = a.parent[c])
+             /\ (Known(a.hasp, c) => hasp'[c] = a.hasp[c])
              \* the parent's record of the child, as long as the parent exists
              /\ ((parent'[c] \in AllCA /\ exists'[parent'[c]]) \/ c = Top)
                   => /\ ent'[c] = SetOf(a.ent[c])
@@ -127,6 +130,7 @@ Reset ==
     /\ exists' = [c \in AllCA |-> c = Top]
     /\ gone' = [c \in AllCA |-> FALSE]
     /\ parent' = [c \in AllCA |-> IF c = Top THEN "ta" ELSE "none"]
+    /\ hasp' = [c \in AllCA |-> c = Top]
     /\ ent' = [c \in AllCA |-> IF c = Top THEN TopRes ELSE NoRes]
     /\ cstate' = [c \in AllCA |-> IF c = Top THEN "active" ELSE "none"]
     /\ iss' = [c \in AllCA |-> IF c = Top THEN [NoCerts EXCEPT !["cur"] = TopRes]
@@ -153,6 +157,12 @@ Args == Line
 
 TAddCa == IsEvent("AddCa") /\ Ok
           /\ AddCa(Args.c, Args.p, SetOf(Args.res)) /\ Projected(Line.abs)
+\* one more parent for a CA / a removed parent added again; removing a
+\* parent
+TAddParent == IsEvent("AddParent") /\ Ok
+          /\ AddParent(Args.c, Args.p, SetOf(Args.res)) /\ Projected(Line.abs)
+TRemoveParent == IsEvent("RemoveParent") /\ Ok
+          /\ RemoveParent(Args.c) /\ Projected(Line.abs)
 TChildRes == IsEvent("ChildRes") /\ Ok
           /\ ChildRes(Args.c, SetOf(Args.res)) /\ Projected(Line.abs)
 \* a resource update to the same value is a no-op
@@ -215,7 +225,7 @@ TRepoSyncAll == IsEvent("RepoSyncAll") /\ Ok /\ RepoSyncAll /\ Projected(Line.ab
 \* one refusal the hierarchy model itself predicts.)
 TRefused ==
     /\ l <= Len(Rec)
-    /\ Line.ev \in {"AddCa", "ChildRes", "ChildMap", "ChildSuspend", "ChildUnsuspend",
+    /\ Line.ev \in {"AddCa", "AddParent", "RemoveParent", "ChildRes", "ChildMap", "ChildSuspend", "ChildUnsuspend",
                     "ChildRemove", "RoaAdd", "RoaDel", "RoaDelta", "AspaSet", "RtrAdd", "RtrDel", "RollInit",
                     "RollActivate", "DeleteCa"}
     /\ IsError /\ l' = l + 1 /\ rp' = Line.rp
@@ -234,6 +244,7 @@ TStep ==
               /\ (SyncRepo(c) \/ SyncRepoFails(c) \/ (SyncDropped(c) /\ SR(c) \notin tasks'))
            \/ /\ kind = "sync_parent" /\ c \in Sub
               /\ \/ SyncParentSend(c) \/ SyncParentList(c) \/ SyncParentFails(c)
+                 \/ SyncParentNoParent(c)
                  \/ (SyncDropped(c) /\ SP(c) \notin tasks')
            \/ /\ kind = "rc_removed" /\ c \in Sub
               /\ (RcRemoved(c) \/ (SyncDropped(c) /\ RM(c) \notin tasks'))
@@ -250,9 +261,9 @@ TRenew == IsEvent("Renew") /\ Ok /\ Renew(regime.objdue /\ phase = "due") /\ Pro
 TDueTouch == IsEvent("DueTouch") /\ phase = "due"
     /\ LET obs == {<<t[1], t[2]>> : t \in SetOf(Line.abs.tasks)}
        IN  /\ tasks \subseteq obs
-           /\ \A t \in obs \ tasks : t[1] = "sync_repo" /\ HasKeys(t[2])
+           /\ \A t \in obs \ tasks : t[1] = "sync_repo" /\ CaHasKeys(t[2])
            /\ tasks' = obs
-    /\ UNCHANGED <<exists, gone, parent, ent, cstate, iss, sus, rc, rcv, req, routes, pub,
+    /\ UNCHANGED <<exists, gone, parent, hasp, ent, cstate, iss, sus, rc, rcv, req, routes, pub,
                    pubknown, pst, rst, kst>>
     /\ Projected(Line.abs)
 \* A maintenance run under a margin that makes only some key sets due: a CA
@@ -343,7 +354,7 @@ TSettled == IsEvent("Settled") /\ UNCHANGED vars /\ Projected(Line.abs)
 
 TraceNext ==
     \/ Reset \/ Setup
-    \/ TAddCa \/ TChildRes \/ TChildResSame \/ TChildSuspend \/ TChildSuspendNoop
+    \/ TAddCa \/ TAddParent \/ TRemoveParent \/ TChildRes \/ TChildResSame \/ TChildSuspend \/ TChildSuspendNoop
     \/ TChildUnsuspend \/ TChildUnsuspendNoop \/ TChildRemove
     \/ TChildMap \/ TRoaAdd \/ TRoaDel \/ TRtrAdd \/ TRtrDel \/ TRoaDelta \/ TAspaSet \/ TAspaDel \/ TRollInit \/ TRollInitNoop
     \/ TRollActivate \/ TRollActivateNoop \/ TDeleteCa \/ TRefresh
@@ -365,8 +376,8 @@ RpVrpsObserved == {<<<<v[1], v[2]>>, v[3]>> : v \in SetOf(rp.vrps)}
 RejectedWithSibling(v) ==
     LET r == v[1]
         c == v[2]
-    IN  aggm[c] /\ \E x \in {"cur", "old"} : \E r2 \in Products(c, x) :
-                     r2[2] = r[2] /\ Prefix(r2) \notin CertRes(c, x)
+    IN  aggm[c] /\ \E s \in SlotsOf(c), x \in {"cur", "old"} : \E r2 \in Products(s, x) :
+                     r2[2] = r[2] /\ Prefix(r2) \notin CertRes(s, x)
 RpMatches ==
     (l > 1 /\ Rec[l - 1].ev \notin {"reset"})
     => /\ RpVrpsObserved \subseteq RpVrps
